@@ -202,6 +202,8 @@ class DualQuaternion:
             # a point is transformed with the combined (quaternion and dual-number) conjugate
             vp = left * DualQuaternion.Pure(v) * DualQuaternion(left.real.conj(), -1 * left.dual.conj())
             return vp.dual.v
+        else:
+            raise ValueError('bad operands to *')
 
     def matrix(self):
         """
